@@ -3,6 +3,7 @@ import atexit
 import builtins
 import http.client
 import io
+import json
 import ipaddress
 import logging
 import os
@@ -28,7 +29,16 @@ logging.getLogger(F.__name__).setLevel(logging.CRITICAL)
 KIND = {"contains": 0, "http": 1, "tftp": 1, "update": 2}
 ACT = {"error": 0, "ignore": 1, "warn": 2}
 FIND = {"found": 0, "none": 1, "raise": 2}
-FS = {"content": 0, "missing": 1, "oserror": 2}
+# file-system situations -> fs outcome of the model (Handlers.fs_out)
+FS = {"content": 0, "missing": 1, "oserror": 2,
+      "perm": 3,          # open() raises PermissionError on the file (injected fault)
+      "perm_dir": 1,      # PermissionError on a directory (the Windows case): treated as not found
+      "toolong": 1,       # ENAMETOOLONG: not found
+      "rootdir": 0,       # directory mode, existing file below root_dir
+      "nopath": 4}        # directory mode, request path that does not translate (".": no access at all)
+ACTIONS = ["set_value", "delete_data", "delete_value", "set_json_value_from_request_body",
+           "set_text_value_from_request_body"]
+BODY_ACTIONS = ACTIONS[3:]
 
 
 # ----------------------------------------------------------------------------- oracles
@@ -137,6 +147,20 @@ class DS:
         return {"net": {"ip": g[1]}}
 
 
+class FaultyStore:
+    """fault injection: every modifying operation of the data store fails like a locked database"""
+
+    def __init__(self, real):
+        self._real = real
+
+    def _fail(self, *a, **k):
+        raise sqlite3.OperationalError("database is locked")
+    delete_data = delete_value = set_value = _fail
+
+    def close(self):
+        self._real.close()
+
+
 class FakeEngine:
     def __init__(self, opener):
         self.opener = opener
@@ -150,26 +174,46 @@ class World:
     """temp dir with the served file, a missing path, a symlink loop, and the sqlite file"""
 
     def __init__(self):
-        self.dir = tempfile.mkdtemp(prefix="c05-")
+        self.dir = tempfile.mkdtemp(prefix="c05-", dir="/dev/shm" if os.path.isdir("/dev/shm") else None)
         self.content = os.path.join(self.dir, "file.txt")
         with open(self.content, "wb") as f:
             f.write(b"secret content\n")
         self.missing = os.path.join(self.dir, "nope.txt")
         self.loop = os.path.join(self.dir, "loop")
         os.symlink(self.loop, self.loop)
+        self.adir = os.path.join(self.dir, "adir")
+        os.mkdir(self.adir)
+        self.toolong = os.path.join(self.dir, "x" * 300)
         self.db = os.path.join(self.dir, "db.sqlite")
         self.counter = 0
         self.opens = 0
+        self.perm_paths = set()               # fault injection: open() of these raises PermissionError
+        self.prep = None
         real_open = builtins.open
 
         def rec_open(path, *a, **k):
             if str(path).startswith(self.dir):
                 self.opens += 1
+                if str(path) in self.perm_paths:
+                    raise PermissionError(13, "Permission denied", str(path))
             return real_open(path, *a, **k)
         self.rec_open = rec_open
         F.open = rec_open                     # module-global lookup precedes builtins
 
+    def prep_store(self):
+        """a second data store object on the same file, used to put a fresh value in place before a request"""
+        if self.prep is None:
+            from vinegar.utils.sqlite_store import open_data_store
+            self.prep = open_data_store(self.db)
+        return self.prep
+
     def close(self):
+        if self.prep is not None:
+            try:
+                self.prep.close()
+            except Exception:   # noqa: BLE001
+                pass
+            self.prep = None
         if "open" in F.__dict__:
             del F.open
         shutil.rmtree(self.dir, ignore_errors=True)
@@ -275,7 +319,8 @@ class C05(Check):
         self._hist[k] = self._hist.get(k, 0) + 1
         c = {"kind": kind, "raise": False, "entries": [], "client": "", "key": False, "act": "error",
              "nores": "not_found", "template": False, "lookup": True, "find": "found", "getd": ("missing", {}),
-             "fs": "content", "ref": None}
+             "fs": "content", "ref": None, "method": None, "action": "set_value", "bad_body": False,
+             "store_fault": False, "sysid": "sys1", "direct": False}
         c.update(kw)
         return c
 
@@ -422,8 +467,7 @@ class C05(Check):
                         for find in ("found", "none", "raise"):
                             combos = [(a, nr, tp, fs) for a in ACT for nr in ("not_found", "continue")
                                       for tp in (False, True) for fs in FS]
-                            if q:
-                                combos = rng.sample(combos, 3)
+                            combos = rng.sample(combos, 3 if q else 12)
                             for (a, nr, tp, fs) in combos:
                                 for client in (clients if not q else rng.sample(clients, 3)):
                                     c = self.mk(kind, "handler", key=key, entries=lst, getd=g, find=find, act=a, nores=nr,
@@ -447,6 +491,46 @@ class C05(Check):
                         c = self.mk("update", "handler", key=key, entries=lst, getd=g, client=client)
                         c["ref"] = self.handler_ref(c)
                         yield c
+        # every configured action of sqlite_update x request body quality x failing data store x HTTP method
+        # x data source (incl. get_data raising at the permission check)
+        upd_data = [("missing", {}), ("val", "192.168.77.129"), ("val", ["10.0.0.0/8", "192.168.77.128/25"]),
+                    ("val", 0), ("val", ""), ("val", False), ("val", {}), ("val", 5), ("typeerror", {"net": "text"}), ("raise",)]
+        for action in ACTIONS:
+            for key, lst in ((True, []), (False, ["192.168.77.129"]), (True, ["10.9.9.0/24"])):
+                for g in (upd_data if key else upd_data[:1]):
+                    for client in (member_cl, other_cl, "::ffff:192.168.77.129", "bogus", ""):
+                        for (method, bad, sf) in ((None, False, False), (None, True, False), (None, False, True),
+                                                  ("GET", False, False), ("PUT", True, True), (None, True, True)):
+                            if bad and action not in BODY_ACTIONS and method is None and not sf:
+                                continue
+                            c = self.mk("update", "actions", key=key, entries=lst, getd=g, client=client, action=action,
+                                        method=method, bad_body=bad, store_fault=sf)
+                            c["ref"] = self.handler_ref(c)
+                            yield c
+        # file handlers: HTTP methods, more file-system situations (injected PermissionError, directory, over-long
+        # name, directory mode with and without a translatable path), system id taken directly from the request
+        # (lookup_key ":system_id:"), falsy-but-valid system ids returned by find_system
+        for kind in ("http", "tftp"):
+            for fs in FS:
+                for key, lst, g in ((True, [], ("val", "192.168.77.0/24")), (False, ["192.168.77.129"], ("missing", {})),
+                                    (True, ["10.9.9.9"], ("val", [])), (False, [], ("missing", {}))):
+                    for client in (member_cl, other_cl, "bogus"):
+                        for method in ((None, "HEAD", "POST") if kind == "http" else (None,)):
+                            for (direct, sysid, find) in ((False, "sys1", "found"), (True, "sys1", "found"),
+                                                          (False, "", "found"), (False, 0, "found"), (False, "sys1", "none")):
+                                if direct and find != "found":
+                                    continue
+                                tp = rng.random() < 0.4
+                                c = self.mk(kind, "fs-method-sysid", key=key, entries=lst, getd=g, client=client, fs=fs,
+                                            method=method, direct=direct, sysid=sysid, find=find, template=tp,
+                                            lookup=True, nores=rng.choice(["not_found", "continue"]),
+                                            act=rng.choice(list(ACT)))
+                                c["ref"] = self.handler_ref(c)
+                                yield c
+                    if not key:
+                        c = self.mk(kind, "fs-nolookup", key=False, entries=lst, lookup=False, fs=fs, client=member_cl)
+                        c["ref"] = self.handler_ref(c)
+                        yield c
         # non-ASCII digits in client_address_list and under the key
         usel = self.uentries if not q else rng.sample(self.uentries, min(60, len(self.uentries)))
         for (v, cl) in usel:
@@ -468,6 +552,12 @@ class C05(Check):
         q = tier == "quick"
         steps = [{"sys": sname, "find": "found", "getd": g, "client": cl}
                  for sname, g in self.SYSTEMS.items() for cl in self.H_CLIENTS]
+        # the same systems after an external change: re-assigned to another address, revoked, emptied
+        changed = {"sysA": [("val", ["10.9.9.0/24"]), ("missing", {}), ("val", [])],
+                   "sysB": [("val", "10.1.2.3"), ("val", ""), ("val", None)],
+                   "sysE": [("val", ("192.168.77.129",)), ("raise",)]}
+        resteps = [{"sys": sname, "find": "found", "getd": g, "client": cl}
+                   for sname, gs in changed.items() for g in gs for cl in self.H_CLIENTS]
         unknown = [{"sys": "nosuch", "find": "none", "getd": ("missing", {}), "client": cl} for cl in self.H_CLIENTS]
         cfgs = [(True, ["172.16.0.0/12"]), (True, []), (False, ["172.16.0.0/12", "10.1.2.3"])]
         for hkind in ("update", "http", "tftp"):
@@ -484,10 +574,31 @@ class C05(Check):
                     yield self.mk("hist", hkind + "/pairs", hkind=hkind, key=key, entries=lst, steps=[a, b],
                                   act=rng.choice(list(ACT)), nores=rng.choice(["not_found", "continue"]),
                                   template=rng.random() < 0.3, fs=rng.choice(["content", "content", "missing"]))
+                # request(s) for a system, an external change of its addresses, requests from old and new address
+                # (the first requests are identical: a memo / cache keyed by the system must not survive the change)
+                for _ in range(60 if q else 600):
+                    sname = rng.choice(list(changed))
+                    first = {"sys": sname, "find": "found", "getd": self.SYSTEMS[sname], "client": rng.choice(self.H_CLIENTS)}
+                    reps = rng.randrange(1, 4)
+                    g2 = rng.choice(changed[sname])
+                    tail = [{"sys": sname, "find": "found", "getd": g2, "client": rng.choice(self.H_CLIENTS)}
+                            for _ in range(rng.randrange(1, 3))]
+                    if rng.random() < 0.3:
+                        tail.insert(rng.randrange(len(tail) + 1), rng.choice(pool))
+                    if rng.random() < 0.3:
+                        tail.append({"sys": sname, "find": "found", "getd": self.SYSTEMS[sname], "client": first["client"]})
+                    yield self.mk("hist", hkind + "/reassigned", hkind=hkind, key=key, entries=lst,
+                                  steps=[dict(first) for _ in range(reps)] + tail,
+                                  act=rng.choice(list(ACT)), nores=rng.choice(["not_found", "continue"]),
+                                  template=rng.random() < 0.3, fs=rng.choice(["content", "content", "missing", "rootdir"]),
+                                  action=rng.choice(ACTIONS))
                 for _ in range(25 if q else 300):
                     n = rng.randrange(3, 7)
                     yield self.mk("hist", hkind + "/random", hkind=hkind, key=key, entries=lst,
-                                  steps=[rng.choice(pool) for _ in range(n)],
+                                  steps=[dict(rng.choice(pool + resteps), **({"method": rng.choice(["GET", "POST", "HEAD"])}
+                                                                            if rng.random() < 0.15 and hkind != "tftp" else {}))
+                                         for _ in range(n)],
+                                  action=rng.choice(ACTIONS), store_fault=(hkind == "update" and rng.random() < 0.15),
                                   act=rng.choice(list(ACT)), nores=rng.choice(["not_found", "continue"]),
                                   template=rng.random() < 0.3, fs=rng.choice(["content", "content", "missing"]))
 
@@ -533,29 +644,30 @@ class C05(Check):
         w = self.ensure_world()
         if c["kind"] == "hist":
             return self.run_history(w, c)
-        ds = DS(c["find"], c["getd"])
+        ds = DS(c["find"], c["getd"], c["sysid"])
         if c["kind"] == "update":
-            h = self.make_update(w, c, ds, text_body=False)
+            h = self.make_update(w, c, ds)
             try:
-                return self.update_request(w, h, c["client"], "sys1", None)
+                return self.update_request(w, h, c, c["client"], "sys1", c["method"], c["bad_body"])
             finally:
                 h.close()
         made = self.make_file(w, c, ds)
         if made is None:
             return (9, 0)
-        return self.file_request(w, c["kind"], made, c["client"])
+        return self.file_request(w, c["kind"], made, c["client"], c["method"])
 
-    # one long-lived handler object, a sequence of requests (different systems / clients)
+    # one long-lived handler object, a sequence of requests (different systems / clients), with external
+    # changes (the data source's answer for a system) between any two of them
     def run_history(self, w, c):
         ds = DS("found", ("missing", {}))
         out = []
         if c["hkind"] == "update":
-            h = self.make_update(w, c, ds, text_body=True)
+            h = self.make_update(w, c, ds)
             try:
                 for st in c["steps"]:
                     ds.find, ds.getd, ds.sys = st["find"], st["getd"], st["sys"]
-                    w.counter += 1
-                    out.append(self.update_request(w, h, st["client"], st["sys"], f"body{w.counter}".encode()))
+                    out.append(self.update_request(w, h, c, st["client"], st["sys"], st.get("method"),
+                                                   st.get("bad_body", False)))
             finally:
                 h.close()
             return out
@@ -564,15 +676,20 @@ class C05(Check):
             return [(9, 0)] * len(c["steps"])
         for st in c["steps"]:
             ds.find, ds.getd, ds.sys = st["find"], st["getd"], st["sys"]
-            out.append(self.file_request(w, c["hkind"], made, st["client"]))
+            out.append(self.file_request(w, c["hkind"], made, st["client"], st.get("method")))
         return out
 
     def file_config(self, w, c):
-        cfg = {"request_path": "/f/..." if c["lookup"] else "/f/x",
-               "file": {"content": w.content, "missing": w.missing, "oserror": w.loop}[c["fs"]],
+        fs = c["fs"]
+        cfg = {"request_path": "/f/..." if c["lookup"] else ("/f" if fs in ("rootdir", "nopath") else "/f/x"),
                "data_source_error_action": c["act"], "lookup_no_result_action": c["nores"]}
+        if fs in ("rootdir", "nopath"):
+            cfg["root_dir"] = w.dir
+        else:
+            cfg["file"] = {"content": w.content, "missing": w.missing, "oserror": w.loop, "perm": w.content,
+                           "perm_dir": w.adir, "toolong": w.toolong}[fs]
         if c["lookup"]:
-            cfg["lookup_key"] = "net:mac"
+            cfg["lookup_key"] = ":system_id:" if c["direct"] else "net:mac"
         if c["key"]:
             cfg["client_address_key"] = "net:ip"
         if c["entries"]:
@@ -582,32 +699,37 @@ class C05(Check):
     def make_file(self, w, c, ds, kind=None):
         cfg = self.file_config(w, c)
         kind = kind or c["kind"]
+        fs = c["fs"]
+        w.perm_paths = {w.content} if fs == "perm" else {w.adir} if fs == "perm_dir" else set()
         try:
             h = F.HttpFileRequestHandler(cfg) if kind == "http" else F.TftpFileRequestHandler(cfg)
             h.set_data_source(ds)
             if c["template"]:
                 h._template_engine = FakeEngine(w.rec_open)
-            uri = "/f/abc" if c["lookup"] else "/f/x"
+            uri = "/f/abc" if c["lookup"] else ("/f" if fs in ("rootdir", "nopath") else "/f/x")
+            uri += {"rootdir": "/file.txt", "nopath": "/a/./b"}.get(fs, "")
             ctx = h.prepare_context(uri)
             assert h.can_handle(uri, ctx)
         except Exception:   # noqa: BLE001
             return None
         return (h, uri, ctx)
 
-    def file_request(self, w, kind, made, client):
+    def file_request(self, w, kind, made, client, method=None):
         h, uri, ctx = made
         w.opens = 0
         try:
             if kind == "http":
                 ri = HttpRequestInfo(client_address=(client, 4711), headers=http.client.HTTPMessage(),
-                                     method="GET", server_address=("192.0.2.1", 80), uri=uri)
+                                     method=method or "GET", server_address=("192.0.2.1", 80), uri=uri)
                 status, headers, body = h.handle(ri, io.BytesIO(b""), ctx)
-                code = {200: 0, 404: 1, 403: 2}.get(int(status), 3)
+                code = {200: 0, 404: 1, 403: 2, 400: 5, 405: 6}.get(int(status), 3)
                 if body is not None:
                     data = body.read()
                     body.close()
                     if code != 0 or data != b"secret content\n":
                         code = 8
+                elif code == 0 and (method or "GET") != "HEAD":
+                    code = 8                       # 200 without a body is only right for HEAD
             else:
                 try:
                     f = h.handle(uri, (client, 4711), ("192.0.2.1", 69), ctx)
@@ -620,39 +742,52 @@ class C05(Check):
             code = 3
         return (code, w.opens)
 
-    def make_update(self, w, c, ds, text_body):
+    def make_update(self, w, c, ds):
         w.counter += 1
-        cfg = {"request_path": "/u", "key": "k", "db_file": w.db}
-        if text_body:
-            cfg["action"] = "set_text_value_from_request_body"
-        else:
-            cfg.update(action="set_value", value=f"v{w.counter}")
+        action = c["action"]
+        cfg = {"request_path": "/u", "db_file": w.db, "action": action}
+        if action != "delete_data":
+            cfg["key"] = "k"
+        if action == "set_value":
+            cfg["value"] = f"v{w.counter}"
         if c["key"]:
             cfg["client_address_key"] = "net:ip"
         if c["entries"]:
             cfg["client_address_list"] = list(c["entries"])
         h = U.HttpSQLiteUpdateRequestHandler(cfg)
         h.set_data_source(ds)
+        if c["store_fault"]:
+            h._data_store = FaultyStore(h._data_store)
         return h
 
-    def update_request(self, w, h, client, system, body):
+    def update_request(self, w, h, c, client, system, method=None, bad_body=False):
         uri = "/u/" + system
         ctx = h.prepare_context(uri)
         assert h.can_handle(uri, ctx)
+        # put a fresh value in place so that EVERY action, when applied, changes the database
+        w.counter += 1
+        w.prep_store().set_value(system, "k", f"prep{w.counter}")
+        action = c["action"]
+        if action == "set_json_value_from_request_body":
+            body = b"{not json" if bad_body else json.dumps({"n": w.counter}).encode()
+        elif action == "set_text_value_from_request_body":
+            body = b"\xff\xfe\xfa" if bad_body else f"body{w.counter}".encode()
+        else:
+            body = b""
         before = w.snapshot()
         hdr = http.client.HTTPMessage()
-        if body is not None:
+        if action in BODY_ACTIONS:
             hdr["Content-Length"] = str(len(body))
-        ri = HttpRequestInfo(client_address=(client, 4711), headers=hdr, method="POST",
+        ri = HttpRequestInfo(client_address=(client, 4711), headers=hdr, method=method or "POST",
                              server_address=("192.0.2.1", 80), uri=uri)
         try:
-            status, headers, rbody = h.handle(ri, io.BytesIO(body or b""), ctx)
-            code = {200: 4, 403: 2}.get(int(status), 3)
+            status, headers, rbody = h.handle(ri, io.BytesIO(body), ctx)
+            code = {200: 4, 403: 2, 400: 5, 405: 6}.get(int(status), 3)
         except Exception:   # noqa: BLE001
             code = 3
         after = w.snapshot()                      # the whole database, read back through a second connection
         changed = 0 if before == after else 1
-        if code == 4 and body is not None and body.decode() not in repr(after):
+        if code == 4 and action == "set_text_value_from_request_body" and body.decode() not in repr(after):
             changed = 9                           # granted but the value is not in the database
         return (code, changed)
 
@@ -671,13 +806,24 @@ class C05(Check):
         ents = [S(e) if isinstance(e, str) else 0 for e in c["entries"]]
         return [KIND[c["kind"]], c["raise"], ents, S(c["client"]), c["key"], ACT[c["act"]],
                 0 if c["nores"] == "not_found" else 1, c["template"], c["lookup"], FIND[c["find"]],
-                getd_sx(g), FS[c["fs"]], t4, t6, ref, [obs[0], obs[1]]]
+                getd_sx(g), FS[c["fs"]], self.method_ok(c), bool(c["bad_body"]) and c["action"] in BODY_ACTIONS,
+                c["store_fault"], t4, t6, ref, [obs[0], obs[1]]]
+
+    @staticmethod
+    def method_ok(c):
+        m = c.get("method")
+        if c["kind"] == "update":
+            return m in (None, "POST")
+        if c["kind"] == "http":
+            return m in (None, "GET", "HEAD")
+        return True
 
     @staticmethod
     def step_case(c, st):
         """the single-request case of one step of a history"""
         d = {k: v for k, v in c.items() if k not in ("steps", "hkind")}
-        d.update(kind=c["hkind"], client=st["client"], find=st["find"], getd=st["getd"])
+        d.update(kind=c["hkind"], client=st["client"], find=st["find"], getd=st["getd"],
+                 method=st.get("method"), bad_body=st.get("bad_body", False))
         d["ref"] = C05.handler_ref(d)
         return d
 
